@@ -285,9 +285,11 @@ func buildPNG(c Case, variant int) Built {
 		pos += 12 + len(ch.Data)
 	}
 	ancTypes := []string{"tEXt", "gAMA", "pHYs", "zTXt", "tIME"}
+	sbitLen := 0
 	for k, a := range c.File {
 		switch a.T {
 		case "IHDR":
+			sbitLen = map[int]int{0: 1, 2: 3, 3: 0, 4: 2, 6: 4}[int(a.CT)] // 0: no sBIT (it would have to precede PLTE)
 			add(gen.IHDR(uint32(a.W), uint32(a.H), byte(a.D), byte(a.CT), byte(a.IL)))
 			if a.CT == 3 {
 				add(gen.Chunk("PLTE", []byte{0, 0, 0, 255, 255, 255}))
@@ -300,7 +302,10 @@ func buildPNG(c Case, variant int) Built {
 			if strings.HasPrefix(a.Size, "pad:") { // exact size: places what follows at a chosen offset
 				n, _ = strconv.Atoi(a.Size[4:])
 			}
-			if a.Size == "small" && (k+variant)%3 == 0 {
+			if a.Size == "small" && (k+variant)%3 == 1 && sbitLen > 0 {
+				// significant bits: every channel narrower than the stored depth (the stored depth stays the depth)
+				add(gen.Chunk("sBIT", []byte{1, 1, 1, 1}[:sbitLen]))
+			} else if a.Size == "small" && (k+variant)%3 == 0 {
 				add(gen.Chunk("eXIf", gen.ExifThumb(false))) // Exif with a JPEG thumbnail inside
 			} else {
 				add(gen.Chunk(ancTypes[(k+variant)%len(ancTypes)], gen.Payload(n, uint32(k), true)))
@@ -429,7 +434,10 @@ func buildWebP(c Case, variant int) Built {
 			}
 			chunks = append(chunks, gen.VP8Tag(uint16(a.W), uint16(a.H), byte(a.WS), byte(a.HS), gen.VP8Body(n), byte((a.W+a.H)%4), (a.W+2*a.H)%5 != 0))
 		case "VP8L":
-			chunks = append(chunks, gen.VP8L(uint32(a.W), uint32(a.H), a.Alpha, gen.Payload(20+variant, 3, false)))
+			// the lossless bitstream after the 5-byte header may be very short (a solid colour needs a few
+			// bytes): payloads of 5, 6 and 8 bytes as well as ordinary ones
+			bl := []int{20 + variant, 3, 0, 1, 20 + variant}[int(a.W+2*a.H)%5]
+			chunks = append(chunks, gen.VP8L(uint32(a.W), uint32(a.H), a.Alpha, gen.Payload(bl, 3, false)))
 		case "VP8X":
 			var fl byte
 			if a.ICCF {
